@@ -17,6 +17,9 @@ import numpy as np
 
 ROOT = os.path.dirname(os.path.dirname(os.path.abspath(__file__)))
 sys.path.insert(0, ROOT)
+OUT = os.environ.get("VERIF_OUT", ROOT)     # where evidence/ and replays/ go (self-tests redirect it)
+if os.environ.get("VERIF_REPO"):            # self-tests: check a scratch copy of the repository instead of /repo
+    sys.path.insert(0, os.environ["VERIF_REPO"])
 
 from pyvc import conc, smt, spec as S, symexec  # noqa: E402
 
@@ -284,11 +287,23 @@ def run_property(plan: Plan, tier: str, seed: int, contracts_mod_names, replay=N
             probes[key] = probes.get(key, False) or (o.result == "probe-ok")
     shaky = {o.fn for o in everything if o.result in ("refuted", "undecided")}
     dead_probes = [k for k, ok in probes.items() if not ok and k[0] not in shaky]
+    if dead_probes:
+        # a probe that is proved means the facts of that function are inconsistent.  Facts include the obligations
+        # tagged with *other* properties (assumed here, checked by their own property's command): pose them now; if
+        # one of them fails, the inconsistency is explained by it (that other check reports it) and is no checker fault
+        again = [o for o in skipped if o.fn in {k[0] for k in dead_probes}]
+        smt.discharge(again, lambda o: o.eng.facts[:o.nfacts], timeout_s=timeout, seed=0)
+        shaky |= {o.fn for o in again if o.result in ("refuted", "undecided")}
+        for o in again:
+            if o.result in ("refuted", "undecided"):
+                print(f"note: {o.name} (tagged {','.join(sorted(o.props))}) does not hold; what this run derives from it "
+                      f"in {o.fn} is void - the check of that property reports it")
+        dead_probes = [k for k in dead_probes if k[0] not in shaky]
     others_bad = [o for o in everything if o not in mine and o.result in ("refuted", "undecided")]
 
     violations = []     # (obligation name, replay path or None, detail)
     known_hits = []
-    replay_dir = os.path.join(ROOT, "replays", pid)
+    replay_dir = os.path.join(OUT, "replays", pid)
     # --- counterexample search for every refuted/undecided obligation, and a sample cross-check for every function
     bad_by_fn = {}
     for o in refuted + undec:
@@ -359,7 +374,7 @@ def run_property(plan: Plan, tier: str, seed: int, contracts_mod_names, replay=N
         if key not in printed:
             printed.add(key)
             print(f"KNOWN-FINDING: property={pid} {k['what']} [{name}]")
-    os.makedirs(os.path.join(ROOT, "evidence"), exist_ok=True)
+    os.makedirs(os.path.join(OUT, "evidence"), exist_ok=True)
     for (name, inp, detail, suffix) in final_viol:
         os.makedirs(replay_dir, exist_ok=True)
         path = os.path.join(replay_dir, sha(name) + ".json")
@@ -434,7 +449,7 @@ def run_property(plan: Plan, tier: str, seed: int, contracts_mod_names, replay=N
             coverage["samples"].extend(r.get("samples", [])[:3])
     evidence = {"property_id": pid, "tier": tier, "seed": seed, "level": plan.level, "coverage": coverage,
                 "assumptions": assumptions, "wall_s": round(time.time() - t0, 2), "violations": len(final_viol)}
-    with open(os.path.join(ROOT, "evidence", f"{pid}.json"), "w") as f:
+    with open(os.path.join(OUT, "evidence", f"{pid}.json"), "w") as f:
         json.dump(evidence, f, indent=1, default=str)
     if final_viol:
         return 1
